@@ -461,3 +461,135 @@ pub fn spec_observe(h: &[Ev], prefixes: &[Pfx], f: SpecFlags) -> Vec<Vec<(u32, c
         if f.per_safi && u.is_empty() { collect(1) } else { u }
     }).collect()
 }
+
+// ------------------------------------------------------------------ session-level world (C02 / C03)
+
+use rotonda::verif::ingress as ving;
+use std::sync::Arc;
+
+/// Scenario operations on a small population of BMP routers and their monitored peers.
+#[derive(Clone, Debug, PartialEq)]
+pub enum Op {
+    /// TCP connection accepted (`bmp_tcp_in/unit.rs:420-432`: look the router up by (unit, remote IP), else register) + Initiation.
+    Connect(usize),
+    /// Connection lost: the epilogue of `router_handler.rs:291-318`, `WithdrawBulk(ids_for_parent(router id))`.
+    Disconnect(usize),
+    /// BMP Termination message.
+    Terminate(usize),
+    PeerUp(usize, usize),
+    PeerDown(usize, usize),
+    /// Route Monitoring for peer `k` of router `r`.
+    Rm(usize, usize, Upd),
+}
+
+impl Op {
+    pub fn show(&self) -> String {
+        match self {
+            Op::Connect(r) => format!("c{r}"), Op::Disconnect(r) => format!("x{r}"), Op::Terminate(r) => format!("t{r}"),
+            Op::PeerUp(r, k) => format!("u{r}.{k}"), Op::PeerDown(r, k) => format!("d{r}.{k}"),
+            Op::Rm(r, k, u) => format!("m{r}.{k}={}", Ev::Upd(0, u.clone()).show().replace(':', ";")),
+        }
+    }
+    pub fn parse(s: &str) -> Option<Op> {
+        let rk = |t: &str| -> Option<(usize, usize)> { let (a, b) = t.split_once('.')?; Some((a.parse().ok()?, b.parse().ok()?)) };
+        let (c, rest) = s.split_at(1);
+        match c {
+            "c" => Some(Op::Connect(rest.parse().ok()?)), "x" => Some(Op::Disconnect(rest.parse().ok()?)), "t" => Some(Op::Terminate(rest.parse().ok()?)),
+            "u" => rk(rest).map(|(r, k)| Op::PeerUp(r, k)), "d" => rk(rest).map(|(r, k)| Op::PeerDown(r, k)),
+            "m" => { let (a, b) = rest.split_once('=')?; let (r, k) = rk(a)?; match Ev::parse(&b.replace(';', ":"))? { Ev::Upd(_, u) => Some(Op::Rm(r, k, u)), _ => None } }
+            _ => None,
+        }
+    }
+}
+
+pub struct WRouter { pub ip: IpAddr, pub conn: Option<BmpRouter>, pub id: Option<u32>, pub peers: Vec<BmpPeer> }
+
+/// One BMP unit: a real `ingress::Register` shared by all routers, each router a real `BmpState`.
+pub struct BmpWorld { pub register: Arc<ving::Register>, pub unit_id: u32, pub routers: Vec<WRouter>, metrics_src: BmpStepper }
+
+/// What one op produced: the real `Update` (if any) and its abstraction as a model event.
+pub struct Emitted { pub update: Update, pub ev: Ev }
+
+impl BmpWorld {
+    pub fn new(routers: Vec<(IpAddr, Vec<BmpPeer>)>) -> BmpWorld {
+        let register = Arc::new(ving::new_register());
+        let unit_id = ving::register(&register);
+        BmpWorld { register, unit_id, routers: routers.into_iter().map(|(ip, peers)| WRouter { ip, conn: None, id: None, peers }).collect(), metrics_src: BmpStepper::new() }
+    }
+    /// Ingress ids of the peers of router `r` that are currently up, by peer index.
+    pub fn up_ids(&self, r: usize) -> Vec<(usize, u32)> {
+        let w = &self.routers[r];
+        match &w.conn { None => vec![], Some(c) => (0..c.peers.len()).filter(|k| c.peers[*k].up).filter_map(|k| c.ingress_of(k).map(|i| (k, i))).collect() }
+    }
+    pub fn apply(&mut self, op: &Op, blobs: &mut HashMap<Vec<u8>, u32>) -> (Option<Emitted>, String) {
+        match op {
+            Op::Connect(r) => {
+                let w = &mut self.routers[*r];
+                if w.conn.is_some() { return (None, "already-connected".into()); }
+                // bmp_tcp_in/unit.rs:420-432, with the real Register functions
+                let q = ving::IngressInfo::new().with_parent(self.unit_id).with_remote_addr(w.ip);
+                let id = match self.register.find_existing_bmp_router(&q) {
+                    Some((id, _)) => id,
+                    None => { let id = ving::register(&self.register); ving::update_info(&self.register, id, q); id }
+                };
+                w.id = Some(id);
+                let stepper = BmpStepper::with_parts(self.register.clone(), id, &format!("r{r}"), self.metrics_src.sm_metrics());
+                let mut br = BmpRouter::from_stepper(stepper);
+                br.peers = w.peers.clone();
+                for p in br.peers.iter_mut() { p.up = false; }
+                w.conn = Some(br);
+                (None, format!("connected-as-{id}"))
+            }
+            Op::Disconnect(r) => {
+                let w = &mut self.routers[*r];
+                if w.conn.take().is_none() { return (None, "not-connected".into()); }
+                let mut ids = self.register.ids_for_parent(w.id.unwrap());
+                ids.sort();
+                let update = Update::WithdrawBulk(ids.clone().into());
+                (Some(Emitted { update, ev: Ev::DownBulk(ids) }), "disconnect".into())
+            }
+            Op::Terminate(r) => {
+                let w = &mut self.routers[*r];
+                let Some(c) = w.conn.as_mut() else { return (None, "not-connected".into()) };
+                let res = c.terminate();
+                w.conn = None; // the handler drops the connection after a Termination
+                match res {
+                    Ingested::Update(Update::WithdrawBulk(ids)) => { let mut v: Vec<u32> = ids.to_vec(); v.sort(); (Some(Emitted { update: Update::WithdrawBulk(ids), ev: Ev::DownBulk(v) }), "terminate".into()) }
+                    Ingested::Update(_) => (None, "terminate-unexpected-update".into()),
+                    Ingested::Rejected(w) => (None, format!("terminate-no-update:{w}")),
+                }
+            }
+            Op::PeerUp(r, k) => {
+                let Some(c) = self.routers[*r].conn.as_mut() else { return (None, "not-connected".into()) };
+                if *k >= c.peers.len() { return (None, "no-such-peer".into()); }
+                let id = c.peer_up(*k);
+                (None, format!("peer-up-as-{:?}", id))
+            }
+            Op::PeerDown(r, k) => {
+                let Some(c) = self.routers[*r].conn.as_mut() else { return (None, "not-connected".into()) };
+                if *k >= c.peers.len() { return (None, "no-such-peer".into()); }
+                match c.peer_down(*k) {
+                    Ingested::Update(Update::Withdraw(id, None)) => (Some(Emitted { update: Update::Withdraw(id, None), ev: Ev::Down(id) }), "peer-down".into()),
+                    Ingested::Update(_) => (None, "peer-down-unexpected-update".into()),
+                    Ingested::Rejected(w) => (None, format!("peer-down-no-update:{w}")),
+                }
+            }
+            Op::Rm(r, k, u) => {
+                let Some(c) = self.routers[*r].conn.as_mut() else { return (None, "not-connected".into()) };
+                if *k >= c.peers.len() { return (None, "no-such-peer".into()); }
+                let Ok((pdu, blob)) = encode_update(u) else { return (None, "bad-update".into()) };
+                if u.corrupt == 0 && !u.ann.is_empty() { blobs.insert(blob, u.attr); }
+                match c.route_monitoring(*k, &pdu) {
+                    Ingested::Update(update) => {
+                        let id = match &update {
+                            Update::Bulk(ps) => ps.iter().find_map(|p| match &p.context { RouteContext::Fresh(f) => Some(f.provenance.ingress_id), RouteContext::Mrt(m) => Some(m.provenance.ingress_id), _ => None }),
+                            _ => None,
+                        }.or_else(|| c.ingress_of(*k));
+                        match id { Some(id) => (Some(Emitted { update, ev: Ev::Upd(id, u.clone()) }), "rm".into()), None => (None, "rm-without-id".into()) }
+                    }
+                    Ingested::Rejected(w) => (None, format!("rm-rejected:{}", w.chars().take(40).collect::<String>())),
+                }
+            }
+        }
+    }
+}
